@@ -811,8 +811,13 @@ pub fn model_step(m: &mut Model, op: &Op, res: &Res, ticks: (u32, u32), atime: b
                     if srcn == Some(t) {
                         // same entry: no-op (only if src resolved)
                     } else {
-                        if srcn.is_some() {
+                        if let Some(n) = srcn {
                             must.push(ErrKind::AlreadyExists);
+                            // the destination exists AND lies inside the directory that is being moved: both
+                            // documented kinds apply (decision 3.2(4): any applicable kind is accepted)
+                            if m.is_dir(n) && m.is_ancestor(n, t) {
+                                must.push(ErrKind::InvalidInput);
+                            }
                         } else {
                             may.push(ErrKind::AlreadyExists);
                         }
